@@ -410,7 +410,74 @@ class AWith2Acq(ast.NodeTransformer):
             return [acq, ast.Try(body=n.body, handlers=[], orelse=[], finalbody=[rel])]
         return n
 
-T = {'negcmp': NegCompare, 'splitisi': SplitIsinstance, 'splitwith': SplitWith, 'mergewith': MergeWith, 'tern2if': TernaryToIf, 'if2tern': IfToTernary, 'kwtimeout': KwTimeout, 'postimeout': PosTimeout, 'earlycont': EarlyContinue, 'rettern': RetTern, 'retif': RetIf, 'demorgan': DeMorgan, 'whilecond': WhileCond, 'swapeq': SwapEq, 'splitin': SplitIn, 'dictlit': DictLit, 'unchain': Unchain, 'untuple': Untuple, 'orassign': OrAssign, 'splitexcept': SplitExcept, 'retnone': RetNone, 'elseremove': ElseRemove, 'elseadd': ElseAdd, 'comp2loop': Comp2Loop, 'whiletrue': WhileTrue, 'elsepass': ElsePass, 'testtemp': TestTemp, 'with2acq': With2Acq, 'commute': Commute, 'ret2tern': Ret2Tern, 'nowait': NoWait, 'raisecall': RaiseCall, 'raisebare': RaiseBare, 'awith2acq': AWith2Acq}
+class Tup2List(ast.NodeTransformer):
+    """`x in (a, b)` -> `x in [a, b]`; `for v in (a, b)` -> `for v in [a, b]`"""
+    def visit_Compare(self, n):
+        self.generic_visit(n)
+        if len(n.ops) == 1 and isinstance(n.ops[0], (ast.In, ast.NotIn)) and isinstance(n.comparators[0], ast.Tuple):
+            count[0] += 1
+            n.comparators[0] = ast.List(elts=n.comparators[0].elts, ctx=ast.Load())
+        return n
+    def visit_For(self, n):
+        self.generic_visit(n)
+        if isinstance(n.iter, ast.Tuple):
+            count[0] += 1
+            n.iter = ast.List(elts=n.iter.elts, ctx=ast.Load())
+        return n
+
+
+class DropAsName(ast.NodeTransformer):
+    def visit_ExceptHandler(self, n):
+        self.generic_visit(n)
+        if n.name and not any(isinstance(x, ast.Name) and x.id == n.name for b in n.body for x in ast.walk(b)):
+            count[0] += 1
+            n.name = None
+        return n
+
+
+class AddAsName(ast.NodeTransformer):
+    def visit_ExceptHandler(self, n):
+        self.generic_visit(n)
+        if n.name is None and n.type is not None:
+            count[0] += 1
+            n.name = '_exc'
+        return n
+
+
+class MaxsizePos(ast.NodeTransformer):
+    def visit_Call(self, n):
+        self.generic_visit(n)
+        if len(n.keywords) == 1 and n.keywords[0].arg == 'maxsize' and not n.args:
+            count[0] += 1
+            return ast.Call(func=n.func, args=[n.keywords[0].value], keywords=[])
+        return n
+
+
+class MaxsizeKw(ast.NodeTransformer):
+    def visit_Call(self, n):
+        self.generic_visit(n)
+        nm = n.func.attr if isinstance(n.func, ast.Attribute) else (n.func.id if isinstance(n.func, ast.Name) else '')
+        if nm in ('Queue', 'SimpleQueue', 'LifoQueue') and len(n.args) == 1 and not n.keywords:
+            count[0] += 1
+            return ast.Call(func=n.func, args=[], keywords=[ast.keyword(arg='maxsize', value=n.args[0])])
+        return n
+
+
+class DaemonAttr(ast.NodeTransformer):
+    """t = Thread(..., daemon=True)  ->  t = Thread(...); t.daemon = True   (plain-name targets)"""
+    def visit_Assign(self, n):
+        if isinstance(n.value, ast.Call) and len(n.targets) == 1 and isinstance(n.targets[0], (ast.Name, ast.Attribute)):
+            kws = [k for k in n.value.keywords if k.arg == 'daemon']
+            fn = n.value.func
+            nm = fn.attr if isinstance(fn, ast.Attribute) else (fn.id if isinstance(fn, ast.Name) else '')
+            if kws and nm in ('Thread', 'Process', 'SpawnProcess'):
+                count[0] += 1
+                n.value.keywords = [k for k in n.value.keywords if k.arg != 'daemon']
+                t = copy.deepcopy(n.targets[0]); t.ctx = ast.Load()
+                return [n, ast.Assign(targets=[ast.Attribute(value=t, attr='daemon', ctx=ast.Store())], value=kws[0].value)]
+        return n
+
+T = {'negcmp': NegCompare, 'splitisi': SplitIsinstance, 'splitwith': SplitWith, 'mergewith': MergeWith, 'tern2if': TernaryToIf, 'if2tern': IfToTernary, 'kwtimeout': KwTimeout, 'postimeout': PosTimeout, 'earlycont': EarlyContinue, 'rettern': RetTern, 'retif': RetIf, 'demorgan': DeMorgan, 'whilecond': WhileCond, 'swapeq': SwapEq, 'splitin': SplitIn, 'dictlit': DictLit, 'unchain': Unchain, 'untuple': Untuple, 'orassign': OrAssign, 'splitexcept': SplitExcept, 'retnone': RetNone, 'elseremove': ElseRemove, 'elseadd': ElseAdd, 'comp2loop': Comp2Loop, 'whiletrue': WhileTrue, 'elsepass': ElsePass, 'testtemp': TestTemp, 'with2acq': With2Acq, 'commute': Commute, 'ret2tern': Ret2Tern, 'nowait': NoWait, 'raisecall': RaiseCall, 'raisebare': RaiseBare, 'awith2acq': AWith2Acq, 'tup2list': Tup2List, 'dropasname': DropAsName, 'addasname': AddAsName, 'maxsizepos': MaxsizePos, 'maxsizekw': MaxsizeKw, 'daemonattr': DaemonAttr}
 
 
 def apply(name):
@@ -423,4 +490,31 @@ def apply(name):
             return src
         return ast.unparse(ast.fix_missing_locations(tree)) + '\n'
 
+    return f
+
+
+def unnest(outer, inner):
+    """move the closure-free nested function `inner` of the module-level function `outer` to module level"""
+    def f(m):
+        src = m.group(0)
+        t = ast.parse(src)
+        for i, st in enumerate(t.body):
+            if isinstance(st, (ast.FunctionDef, ast.AsyncFunctionDef)) and st.name == outer:
+                for j, s2 in enumerate(st.body):
+                    if isinstance(s2, (ast.FunctionDef, ast.AsyncFunctionDef)) and s2.name == inner:
+                        params = {a.arg for a in ast.walk(s2) if isinstance(a, ast.arg)}
+                        stored = {x.id for x in ast.walk(s2) if isinstance(x, ast.Name) and isinstance(x.ctx, ast.Store)}
+                        outer_locals = {x.id for x in ast.walk(st) if isinstance(x, ast.Name) and isinstance(x.ctx, ast.Store)} | {a.arg for a in st.args.args + st.args.kwonlyargs}
+                        free = {x.id for x in ast.walk(s2) if isinstance(x, ast.Name) and isinstance(x.ctx, ast.Load)} - params - stored
+                        if free & outer_locals:
+                            return src
+                        new = f'_{outer}_{inner}'
+                        s2.name = new
+                        del st.body[j]
+                        for x in ast.walk(st):
+                            if isinstance(x, ast.Name) and x.id == inner:
+                                x.id = new
+                        t.body.insert(i, s2)
+                        return ast.unparse(ast.fix_missing_locations(t)) + '\n'
+        return src
     return f
